@@ -1371,6 +1371,433 @@ def time_axes_case(ax_seed, res, problems):
         problem(fname, f"the default argument `{name}` changed from {before} to {now}")
 
 
+# ------------------------------------------------------------------ grids on which the quantity is undefined at SOME locations
+# Quantifier covered: "for all validation/future datasets of any grid shape (1x1 and larger)" with the clauses "return, AT
+# EVERY LOCATION, exactly the documented formulas" and "results do not depend on the number of locations".  The cases above
+# judge a row of a frame only when the documented quantity exists at every location of the grid (`ref_grid` -> None as soon
+# as one denominator is 0) and accept a missing row whenever some location is undefined.  Here the grid has more than one
+# location, the quantity is 0/0 (undefined, NaN in floating point) at some of them — a threshold event that never happens in
+# either data set at a warm cell, a dry cell (all zeros), a low quantile that is 0 in both data sets, a zero-mean column —
+# and defined at the others, and NO location is +-inf (a non-zero numerator over a zero denominator is the one case in which
+# the library documents, by its warning, that the row is not shown; DESIGN.md §4 records it as an observation).  Demanded:
+# the row is reported, every location with a non-zero denominator holds the documented value, and that value is bit for bit
+# the one obtained when the location is evaluated alone (1x1).  Nothing is demanded at the undefined locations.
+PG_GRIDS = [(1, 2), (1, 3), (2, 2), (3, 1), (2, 3)]
+PG_STATS = [["mean", 0.05, 0.95], ["mean", 0.1, 0.5], [0.25, "mean"], ["mean", 0.05], [0.05, 0.95, "mean"]]
+
+
+def EMPTY_FRAME():
+    """pandas' "No objects to concatenate": every row of the frame was dropped = a frame without rows"""
+    import pandas as pd
+
+    return pd.DataFrame({"Correction Method": [], "Metric": [], "Bias": []})
+
+
+def partial_grid_case(pg_seed, res, problems):
+    """One grid (2-6 locations) with 1..n-1 'undefined' locations, through calculate_marginal_bias (percentage),
+    calculate_future_trend_bias (additive; multiplicative for the mean) and calculate_future_trend (multiplicative mean).
+    Real code + oracle only; the whole case is regenerated from pg_seed (replay)."""
+    from ibicus.evaluate import marginal, trend
+    from ibicus.evaluate.metrics import ThresholdMetric
+
+    rng = random.Random(pg_seed)  # its own generator: the seed alone reproduces the case
+    I, J = rng.choice(PG_GRIDS)
+    cells = [(i, j) for i in range(I) for j in range(J)]
+    und = sorted(rng.sample(cells, rng.randint(1, len(cells) - 1)))
+    lens = {"obs": 2 * rng.randint(6, 16), "rawF": 2 * rng.randint(6, 16)}
+    lens.update(rawV=lens["obs"], bcV=lens["obs"], bcF=lens["rawF"])
+    kind = rng.choice(["higher", "lower", "between", "outside"])
+    a8 = rng.randint(28, 72)
+    b8 = a8 + rng.randint(8, 40)
+    ms = (kind, a8 / 8.0, None if kind in ("higher", "lower") else b8 / 8.0)
+    metric = ThresholdMetric(threshold_value=ms[1] if ms[2] is None else [ms[1], ms[2]], threshold_type=kind, name="event")
+    stats = list(rng.choice(PG_STATS))
+    names = ["obs", "rawV", "bcV", "rawF", "bcF"]
+    D = {n: gen_data(rng, lens[n], I, J, "regular") for n in names}
+    ensure_occurs(rng, ms, [D[n] for n in names])
+
+    def never(T):  # the event never happens (values tied with a bound included: the comparisons are strict)
+        if kind == "higher":
+            return [rng.randint(8, a8) / 8.0 for _ in range(T)]
+        if kind == "lower":
+            return [rng.randint(a8, 128) / 8.0 for _ in range(T)]
+        if kind == "between":
+            return [(rng.randint(8, a8) if rng.random() < 0.5 else rng.randint(b8, 160)) / 8.0 for _ in range(T)]
+        return [rng.randint(a8, b8) / 8.0 for _ in range(T)]
+
+    def column(sc, T):
+        if sc == "event never occurs":
+            return never(T)
+        if sc == "dry cell":
+            return [0.0] * T
+        if sc == "zero mean":
+            h = [rng.randint(0, 64) / 8.0 for _ in range(T // 2)]
+            c = h + [-v for v in h]
+        else:  # "low quantile zero": 40-70 % zeros, positive otherwise (precipitation-like)
+            nz = rng.randint((2 * T + 4) // 5, (7 * T) // 10)
+            c = [0.0] * nz + [rng.randint(1, 128) / 8.0 for _ in range(T - nz)]
+        rng.shuffle(c)
+        return c
+
+    scen = {}
+    for (i, j) in und:
+        scen[(i, j)] = rng.choice(["event never occurs", "dry cell", "zero mean", "low quantile zero"])
+        for n in names:
+            D[n][:, i, j] = column(scen[(i, j)], lens[n])
+    form = rng.choice(["arrays", "[data, time] lists"])
+    d0 = datetime.date(rng.randint(1950, 2080), 1, 1) + datetime.timedelta(days=rng.randint(0, 300))
+    tV = np.array([d0 + datetime.timedelta(days=n) for n in range(lens["obs"])], dtype=object)
+    tF = np.array([d0 + datetime.timedelta(days=3650 + n) for n in range(lens["rawF"])], dtype=object)
+    case = {"what": "partially undefined grid", "relation": "partially_undefined_grid", "pg_seed": pg_seed, "grid": [I, J],
+            "undefined_locations": [{"location": list(c), "kind": scen[c]} for c in und], "statistics": stats,
+            "metric": {"name": "event", "type": kind, "threshold": ms[1] if ms[2] is None else [ms[1], ms[2]]},
+            "call_form": form, "data": {n: D[n].tolist() for n in names}, "time_validate": [str(d) for d in tV], "time_future": [str(d) for d in tF],
+            "note": "regenerated from pg_seed by harness.c20.partial_grid_case; obs / rawV / bcV are the validation period, rawF / bcF the future period"}
+    judged = {"rows": 0, "rows_with_undefined_location": 0, "rows_skipped_inf_or_tiny": 0}
+
+    def problem(what, why, call_txt):
+        problems.append((f"{what}: {I}x{J} grid, quantity undefined (0/0) at {[list(c) for c in und]} only: {why}", {**case, "what": what, "failing_call": call_txt}))
+
+    def S(st, x):
+        if st == "mean":
+            return np.mean(x, axis=0)
+        if st == "metric":
+            return holds(ms, x).sum(axis=0) / x.shape[0]
+        return np.quantile(x, st, axis=0)
+
+    def label(st):
+        return "Mean" if st == "mean" else ("event" if st == "metric" else f"{st} qn")
+
+    def sub(x, c):
+        return x[:, c[0]:c[0] + 1, c[1]:c[1] + 1].copy()
+
+    def pack(x, t):
+        return x if form == "arrays" else [x, t]
+
+    def judge_rows(what, call_txt, out, key, refs, alone):
+        """refs: {statistic: (reference array | None, [denominator arrays])}; alone(c) -> outcome of the same call on location c only"""
+        singles = {}
+        for st, (ref, dens) in refs.items():
+            if ref is None or np.isinf(ref).any() or any(((d != 0) & (np.abs(d) < 1e-6)).any() for d in dens):
+                judged["rows_skipped_inf_or_tiny"] += 1  # +-inf somewhere: the documented drop; tiny denominator: rounding
+                continue
+            judged["rows"] += 1
+            judged["rows_with_undefined_location"] += bool(np.isnan(ref).any())
+            if out[0] == "raise":
+                problem(what, f"raised {out[1]} although no location is infinite ({label(st)})", call_txt)
+                continue
+            got = row(out[1], key, label(st))
+            if got is None:
+                c = [c_ for c_ in cells if np.isfinite(ref[c_])][0]
+                problem(what, f"no row for {label(st)} ('{key}') although no location is infinite and the documented value exists at "
+                        f"{int(np.isfinite(ref).sum())} location(s), e.g. {float(ref[c])!r} at {c}", call_txt)
+                continue
+            if got.shape != ref.shape:
+                problem(what, f"{label(st)}: shape {got.shape} instead of {ref.shape}", call_txt)
+                continue
+            fin = np.isfinite(ref)
+            bad = fin & ~(np.abs(got - np.where(fin, ref, 0.0)) <= TOL * (1 + 100.0 + np.abs(np.where(fin, ref, 0.0))))
+            if bad.any():
+                c = tuple(int(v) for v in np.argwhere(bad)[0])
+                problem(what, f"{label(st)} ('{key}'): location {c}: returned {float(got[c])!r}, documented formula gives {float(ref[c])!r}", call_txt)
+                continue
+            for c in [c_ for c_ in cells if fin[c_] and c_ not in und][:2]:  # the number of locations does not matter
+                if c not in singles:
+                    singles[c] = alone(c)
+                one = singles[c]
+                v1 = None if one[0] == "raise" else row(one[1], key, label(st))
+                if v1 is None or not np.array_equal(v1[0, 0], got[c]):
+                    problem(what, f"{label(st)} ('{key}'): location {c} evaluated alone (1x1) gives "
+                            f"{one[1] if one[0] == 'raise' else (None if v1 is None else float(v1[0, 0]))!r}, inside the {I}x{J} grid {float(got[c])!r}", call_txt)
+                    break
+
+    with np.errstate(all="ignore"):
+        sts = stats + ["metric"]
+        # ---- calculate_marginal_bias, percentage: 100 (cm - obs) / obs
+        for key in ("raw", "bc"):
+            cm = D["rawV" if key == "raw" else "bcV"]
+            refs = {st: (100 * (S(st, cm) - S(st, D["obs"])) / S(st, D["obs"]), [S(st, D["obs"])]) for st in sts}
+            txt = f"calculate_marginal_bias(obs=obs, statistics={stats}, metrics=[event], percentage_or_absolute='percentage', {key}={'rawV' if key == 'raw' else 'bcV'}) [{form}]"
+            out = call(marginal.calculate_marginal_bias, obs=pack(D["obs"], tV), statistics=stats, metrics=[metric], **{key: pack(cm, tV)})
+            if out == ("raise", "NoRows"):
+                out = ("ok", EMPTY_FRAME())
+            judge_rows("calculate_marginal_bias", txt, out, key, refs,
+                       lambda c, cm=cm, key=key: call(marginal.calculate_marginal_bias, obs=pack(sub(D["obs"], c), tV), statistics=stats, metrics=[metric],
+                                                      **{key: pack(sub(cm, c), tV)}))
+        # ---- calculate_future_trend_bias: 100 (bc_trend - raw_trend) / raw_trend; calculate_future_trend: bc_trend
+        for tt in ("additive", "multiplicative"):
+            use = sts if tt == "additive" else ["mean"]  # multiplicative quantile / metric paths: a zero validation statistic aborts the call (guard)
+            refs, refs_t = {}, {}
+            for st in use:
+                rV, rF, bV, bF = (S(st, D[n]) for n in ("rawV", "rawF", "bcV", "bcF"))
+                rt, bt_ = (rF - rV, bF - bV) if tt == "additive" else (rF / rV, bF / bV)
+                refs[st] = (100 * (bt_ - rt) / rt, [rt] if tt == "additive" else [rt, rV, bV])
+                refs_t[st] = (bt_, [] if tt == "additive" else [bV])
+            kw = dict(statistics=[s_ for s_ in use if s_ != "metric"], metrics=[metric] if "metric" in use else [], trend_type=tt,
+                      time_validate=tV, time_future=tF)
+            txt = f"calculate_future_trend_bias(rawV, rawF, statistics={kw['statistics']}, trend_type='{tt}', metrics={'[event]' if kw['metrics'] else '[]'}, bc=[bcV, bcF])"
+            out = call(trend.calculate_future_trend_bias, raw_validate=D["rawV"], raw_future=D["rawF"], bc=[D["bcV"], D["bcF"]], **kw)
+            if out == ("raise", "NoRows"):
+                out = ("ok", EMPTY_FRAME())
+            judge_rows("calculate_future_trend_bias", txt, out, "bc", refs,
+                       lambda c, kw=kw: call(trend.calculate_future_trend_bias, raw_validate=sub(D["rawV"], c), raw_future=sub(D["rawF"], c),
+                                             bc=[sub(D["bcV"], c), sub(D["bcF"], c)], **kw))
+            if tt == "multiplicative":
+                txt = "calculate_future_trend(statistics=['mean'], trend_type='multiplicative', metrics=[], bc=[bcV, bcF])"
+                out = call(trend.calculate_future_trend, bc=[D["bcV"], D["bcF"]], **kw)
+                if out == ("raise", "NoRows"):
+                    out = ("ok", EMPTY_FRAME())
+                judge_rows("calculate_future_trend", txt, out, "bc", refs_t,
+                           lambda c, kw=kw: call(trend.calculate_future_trend, bc=[sub(D["bcV"], c), sub(D["bcF"], c)], **kw))
+    if res is not None:
+        res.count(("partial_grid", I, J, tuple(und), tuple(sorted(scen.values())), kind, str(stats), form), judged["rows_with_undefined_location"] > 0)
+        for k_, v_ in judged.items():
+            res.extra["partial_grid_" + k_] = res.extra.get("partial_grid_" + k_, 0) + v_
+    for fname, lab in MUTATED:
+        problem(fname, f"the call modified the caller's argument passed as '{lab}'", None)
+    del MUTATED[:]
+    for fname, name, before, now in defaults_changed():
+        problem(fname, f"the default argument `{name}` changed from {before} to {now}", None)
+
+
+# ------------------------------------------------------------------ thresholds written with every numeric type the class accepts
+# Quantifier covered: "[for all] metrics" (and "all statistics ..., additive and multiplicative trend types" through every
+# public function).  A ThresholdMetric is documented to take ints or floats (global) or arrays (local) as thresholds, bare,
+# in a [lower, upper] list or in a day / month / season dict.  All generators above write every threshold as a Python float.
+# Here the thresholds of one metric MIX the accepted numeric types — Python int for whole numbers (290), Python float /
+# np.float64 for fractional ones (292.5), integer and floating arrays for local thresholds — in dicts whose keys are in
+# random order, on time axes that start anywhere in the year (so the first time step meets an int threshold or a float one).
+# Demanded: every public function reports the documented quantity for the thresholds AS WRITTEN (290 means 290.0), and
+# bit for bit the same frames as for the twin metric whose thresholds are all written as Python floats / float64 arrays.
+SEASONS = ["Winter", "Spring", "Summer", "Autumn"]
+
+
+def threshold_types_case(tv_seed, res, problems):
+    """One sequence of public calls with six metrics (season / month / day / overall scope, global and local) whose thresholds
+    mix the numeric types.  Real code + oracle only; the whole case is regenerated from tv_seed (replay)."""
+    from ibicus.evaluate import marginal, multivariate, trend
+    from ibicus.evaluate.metrics import ThresholdMetric
+
+    rng = random.Random(tv_seed)  # its own generator: the seed alone reproduces the sequence
+    I, J = rng.choice(GRIDS + [(2, 3)])
+    T = rng.randint(60, 100)
+    tkind = rng.choice(["date", "date", "datetime", "datetime64"])
+
+    def axis():  # T days out of two years, starting anywhere in the year: every season and most months are met
+        d0 = datetime.date(rng.randint(1950, 2080), rng.randint(1, 12), rng.randint(1, 28))
+        return [d0 + datetime.timedelta(days=n) for n in sorted(rng.sample(range(730), T))]
+
+    dA, dB = axis(), axis()
+    tA, tB = as_time_array(dA, tkind), as_time_array(dB, tkind)
+    X = [np.array([[[rng.randint(32, 160) / 8.0 for _ in range(J)] for _ in range(I)] for _ in range(T)]) for _ in range(4)]
+
+    def level(p_whole, base=None):
+        n = rng.randint(8, 15) if base is None else base + rng.randint(2, 5)
+        return float(n) if rng.random() < p_whole else n + rng.randint(1, 7) / 8.0
+
+    def typed(v, style):
+        """the value v (a float) as a caller would write it"""
+        if float(v).is_integer():
+            return int(v) if (style != "int, float and np.float64" or rng.random() < 0.6) else rng.choice([float(v), np.float64(v)])
+        return float(v) if (style != "int, float and np.float64" or rng.random() < 0.5) else np.float64(v)
+
+    def typed_array(a, style):
+        if np.all(a == np.floor(a)):
+            return a.astype(rng.choice([np.int64, np.int32]) if style != "int, float and np.float64" or rng.random() < 0.7 else np.float64)
+        return a.astype(rng.choice([np.float64, np.float32]))  # multiples of 1/8 below 32: exact in float32
+
+    def show(v):
+        if isinstance(v, list):
+            return f"[{v[0].dtype} array {v[0].tolist()}]"
+        if isinstance(v, np.ndarray):
+            return f"{v.dtype} array {v.tolist()}"
+        return f"{type(v).__name__} {v!r}"
+
+    def tables(scope, locality, style, below=None):
+        """-> (canonical float table, table as written); `below`: the canonical lower table (then this is the upper one)"""
+        p = 1.0 if style == "all int" else 0.5
+        keys = {"season": list(SEASONS), "month": list(range(1, 13)), "day": list(range(1, 367)), "overall": [None]}[scope]
+        f, t = {}, {}
+        for k_ in keys:
+            if locality == "global":
+                f[k_] = level(p, None if below is None else int(below[k_]))
+                t[k_] = typed(f[k_], style)
+            else:
+                whole = rng.random() < p
+                lo_ = None if below is None else np.floor(np.asarray(below[k_][0] if scope != "overall" else below[k_]))
+                a = np.array([[level(1.0 if whole else 0.3, None if lo_ is None else int(lo_[i, j])) for j in range(J)] for i in range(I)])
+                ta = typed_array(a, style)
+                f[k_], t[k_] = ([a], [ta]) if scope != "overall" else (a, ta)
+        if scope == "overall":
+            return f[None], t[None]
+        order = list(keys)
+        rng.shuffle(order)  # the order in which the caller wrote the keys
+        return f, {k_: t[k_] for k_ in order}
+
+    plan = [("season", "global"), ("month", "global"), ("day", "global"), ("overall", "global"),
+            (rng.choice(["season", "month"]), "local"), ("overall", "local")]
+    specs, seq = [], []
+    for n_, (scope, locality) in enumerate(plan):
+        kind = rng.choice(["higher", "lower", "between", "outside"])
+        style = rng.choice(["int and float", "int and float", "int, float and np.float64", "all int"])
+        flo, tlo = tables(scope, locality, style)
+        fhi, thi = tables(scope, locality, style, below=flo if scope != "overall" else {None: flo}) if kind in ("between", "outside") else (None, None)
+        specs.append(dict(name=f"m{n_} {scope} {locality} {kind}", scope=scope, locality=locality, kind=kind, style=style, f=(flo, fhi), t=(tlo, thi)))
+
+    def written(s, tbls):
+        lo_, hi_ = tbls
+        one = lambda tb: ({str(k_): show(v_) for k_, v_ in tb.items()} if isinstance(tb, dict) else show(tb))  # noqa: E731
+        return one(lo_) if hi_ is None else [one(lo_), one(hi_)]
+
+    case = {"what": "threshold types", "relation": "threshold_value_types", "tv_seed": tv_seed, "grid": [I, J], "T": T, "time_entry_type": tkind,
+            "axis_A": [d.isoformat() for d in dA], "axis_B": [d.isoformat() for d in dB], "data": {f"X{n}": x.tolist() for n, x in enumerate(X)},
+            "metrics": [{"name": s["name"], "scope": s["scope"], "locality": s["locality"], "type": s["kind"], "style": s["style"],
+                         "threshold_value_as_written": written(s, s["t"])} for s in specs],
+            "note": "regenerated from tv_seed by harness.c20.threshold_types_case; the twin metrics have the same thresholds written as Python floats / float64 arrays"}
+
+    def problem(what, why):
+        problems.append((f"{what}: thresholds mixing int / float: {why}", {**case, "what": what, "failing_call": seq[-1] if seq else None, "call_sequence": list(seq)}))
+
+    def build(s, tbls, name):
+        lo_, hi_ = tbls
+        out = call(ThresholdMetric, threshold_value=lo_ if hi_ is None else [lo_, hi_], threshold_type=s["kind"], threshold_scope=s["scope"],
+                   threshold_locality=s["locality"], name=name)
+        return out[1] if out[0] == "ok" else None
+
+    M, Mf, use = [], [], []
+    for s in specs:
+        m, mf = build(s, s["t"], s["name"]), build(s, s["f"], s["name"])
+        if m is None or mf is None:
+            seq.append(f"ThresholdMetric(threshold_value={written(s, s['t'])!r:.300}, threshold_type='{s['kind']}', threshold_scope='{s['scope']}', "
+                       f"threshold_locality='{s['locality']}')")
+            problem("ThresholdMetric", f"the constructor raised for '{s['name']}' (thresholds as written: {m is None}, as floats: {mf is None})")
+            continue
+        M.append(m)
+        Mf.append(mf)
+        use.append(s)
+    if not M:
+        return
+
+    def thr(s, tb, dates):
+        if s["scope"] == "overall":
+            v = np.asarray(tb, dtype=float)
+            return v[None, :, :] if s["locality"] == "local" else v
+        g = [d.timetuple().tm_yday if s["scope"] == "day" else (d.month if s["scope"] == "month" else SEASON[d.month]) for d in dates]
+        if s["locality"] == "global":
+            return np.array([float(tb[k_]) for k_ in g])[:, None, None]
+        return np.stack([np.asarray(tb[k_][0], dtype=float) for k_ in g])
+
+    def inst(s, x, dates):
+        lo_ = thr(s, s["f"][0], dates)
+        hi_ = None if s["f"][1] is None else thr(s, s["f"][1], dates)
+        return {"higher": lambda: x > lo_, "lower": lambda: x < lo_, "between": lambda: (x > lo_) & (x < hi_),
+                "outside": lambda: (x < lo_) | (x > hi_)}[s["kind"]]()
+
+    def prob(s, x, dates):
+        return inst(s, x, dates).sum(axis=0) / x.shape[0]
+
+    def days(s, x, dates):
+        yrs = np.array([d.year for d in dates])
+        i_ = inst(s, x, dates)
+        return np.mean([i_[yrs == y_].sum(axis=0) for y_ in np.unique(yrs)], axis=0)
+
+    def nz(*arrs):
+        return all(np.all(np.abs(a) > 1e-6) for a in arrs)
+
+    def got(out, key, name, col="Bias"):
+        return out if out[0] == "raise" else ("ok", row(out[1], key, name, col))
+
+    def twin(what, a, b):
+        why = frames_differ(a, b)
+        if why:
+            problem(what, f"the result differs from the one for the same thresholds written as floats: {why}")
+
+    judged = 0
+    sets = (("raw", X[1], tA, dA), ("fut", X[2], tB, dB))
+    with np.errstate(all="ignore"):
+        for bt in ("percentage", "absolute"):
+            refs = {}
+            for s in use:
+                pO = prob(s, X[0], dA)
+                for key, x, _, dd in sets:
+                    p = prob(s, x, dd)
+                    refs[(key, s["name"])] = (365 * p - 365 * pO) if bt == "absolute" else (100 * (p - pO) / pO if nz(pO) else None)
+            seq.append(f"calculate_marginal_bias(obs=[X0, axis_A], statistics=[], metrics=all, percentage_or_absolute='{bt}', raw=[X1, axis_A], fut=[X2, axis_B])")
+            kw = dict(obs=[X[0], tA], statistics=[], percentage_or_absolute=bt, raw=[X[1], tA], fut=[X[2], tB])
+            out = call(marginal.calculate_marginal_bias, metrics=M, **kw)
+            for (key, name), ref in refs.items():
+                judged += ref is not None
+                why = differs(got(out, key, name), ref, 365.0 if bt == "absolute" else 100.0)
+                if why:
+                    problem("calculate_marginal_bias", f"{bt} bias of the metric '{name}' for '{key}': {why}")
+            twin("calculate_marginal_bias", out, call(marginal.calculate_marginal_bias, metrics=Mf, **kw))
+        refs = {}
+        for s in use:
+            dO = days(s, X[0], dA)
+            for key, x, _, dd in sets:
+                dC = days(s, x, dd)
+                refs[(key, s["name"])] = {"CM": dC, "Obs": dO, "Bias": dC - dO}
+        seq.append("calculate_bias_days_metrics(obs_data=[X0, axis_A], metrics=all, raw=[X1, axis_A], fut=[X2, axis_B])")
+        kw = dict(obs_data=[X[0], tA], raw=[X[1], tA], fut=[X[2], tB])
+        out = call(marginal.calculate_bias_days_metrics, metrics=M, **kw)
+        for (key, name), d_ in refs.items():
+            for col, ref in d_.items():
+                judged += 1
+                why = differs(got(out, key, name, col), ref, 10.0)
+                if why:
+                    problem("calculate_bias_days_metrics", f"column {col} of the metric '{name}' for '{key}': {why}")
+        twin("calculate_bias_days_metrics", out, call(marginal.calculate_bias_days_metrics, metrics=Mf, **kw))
+        for tt in ("additive", "multiplicative"):
+            refs_tb, refs_t = {}, {}
+            for s in use:
+                rV, rF, bV, bF = prob(s, X[0], dA), prob(s, X[2], dB), prob(s, X[1], dA), prob(s, X[3], dB)
+                if tt == "additive":
+                    refs_tb[s["name"]] = 100 * ((bF - bV) - (rF - rV)) / (rF - rV) if nz(rF - rV) else None
+                    refs_t[s["name"]] = bF - bV
+                else:
+                    refs_tb[s["name"]] = 100 * (bF / bV - rF / rV) / (rF / rV) if nz(bV, rV, rF) else None
+                    refs_t[s["name"]] = bF / bV if nz(bV) else None
+            for fn, fname, refs_, extra, sc in ((trend.calculate_future_trend_bias, "calculate_future_trend_bias", refs_tb,
+                                                 dict(raw_validate=X[0], raw_future=X[2]), 100.0),
+                                                (trend.calculate_future_trend, "calculate_future_trend", refs_t, {}, 1.0)):
+                idx = [n_ for n_, s in enumerate(use) if refs_[s["name"]] is not None]
+                if not idx:
+                    continue
+                seq.append(f"{fname}({'raw_validate=X0, raw_future=X2, ' if extra else ''}statistics=[], trend_type='{tt}', "
+                           f"metrics={[use[n_]['name'] for n_ in idx]}, time_validate=axis_A, time_future=axis_B, bc=[X1, X3])")
+                kw = dict(statistics=[], trend_type=tt, time_validate=tA, time_future=tB, bc=[X[1], X[3]], **extra)
+                out = call(fn, metrics=[M[n_] for n_ in idx], **kw)
+                for n_ in idx:
+                    judged += 1
+                    why = differs(got(out, "bc", use[n_]["name"]), refs_[use[n_]["name"]], sc)
+                    if why:
+                        problem(fname, f"{tt} trend{' bias' if extra else ''} of the metric '{use[n_]['name']}': {why}")
+                twin(fname, out, call(fn, metrics=[Mf[n_] for n_ in idx], **kw))
+        for a_, b_ in ((0, 1 % len(use)), (2 % len(use), 2 % len(use)), (len(use) - 2, max(0, len(use) - 3))) if len(use) > 1 else ():
+            s1, s2 = use[a_], use[b_]
+            i1, i2 = inst(s1, X[0], dA), inst(s2, X[1], dA)
+            ref = 100.0 * (i1 & i2).sum(axis=0) / i2.sum(axis=0) if np.all(i2.sum(axis=0) > 0) else None
+            seq.append(f"calculate_conditional_joint_threshold_exceedance('{s1['name']}', '{s2['name']}', d=[X0, X1, axis_A])")
+            out = call(multivariate.calculate_conditional_joint_threshold_exceedance, M[a_], M[b_], d=[X[0], X[1], tA])
+            if ref is not None:
+                judged += 1
+                g_ = out if out[0] == "raise" else ("ok", np.asarray(out[1]["Conditional exceedance probability"].iloc[0], dtype=float))
+                why = differs(g_, ref, 100.0)
+                if why:
+                    problem("calculate_conditional_joint_threshold_exceedance", f"P('{s1['name']}' | '{s2['name']}') in percent: {why}")
+            twin("calculate_conditional_joint_threshold_exceedance", out,
+                 call(multivariate.calculate_conditional_joint_threshold_exceedance, Mf[a_], Mf[b_], d=[X[0], X[1], tA]))
+    if res is not None:
+        res.count(("threshold_types", I, J, T, tkind, dA[0].isoformat(), tuple((s["scope"], s["locality"], s["kind"], s["style"]) for s in use)), True)
+        res.extra["threshold_types_cases"] = res.extra.get("threshold_types_cases", 0) + 1
+        res.extra["threshold_types_rows_judged"] = res.extra.get("threshold_types_rows_judged", 0) + judged
+    for fname, lab in MUTATED:
+        problem(fname, f"the call modified the caller's argument passed as '{lab}'")
+    del MUTATED[:]
+    for fname, name, before, now in defaults_changed():
+        problem(fname, f"the default argument `{name}` changed from {before} to {now}")
+
+
 def rmse_case(k, rng, lines, expect, res):
     """correlation.rmse_spatial_correlation_distribution vs the model's exact covariances (sqrt / mean done in float here)"""
     from ibicus.evaluate import correlation
@@ -1443,6 +1870,14 @@ def run(tier, res, force_search=False):
         "time-scoped metrics (day / month / season thresholds) are decided by the oracle on the real code: time_axes_case runs call sequences in "
         "which every data set carries its own time axis and the axes share length, first and last date, entry type (date | datetime | datetime64) "
         "and, for one of them, the array object (refilled in place); the reference takes each time step with the threshold of its own day / month / season",
+        "a row of a frame may be missing only when some location is +-inf (non-zero numerator over a zero denominator: the library warns and does not "
+        "show the row; DESIGN.md §4 observation); partial_grid_case demands, on grids where the quantity is 0/0 at some locations and no location is "
+        "infinite, that the row is reported, that every location with a non-zero denominator holds the documented value and that this value is bit for "
+        "bit the one of the location evaluated alone (Props.C20.grid_independent / grid_raises_iff: a location that merely divides by zero does not "
+        "abort the others); nothing is demanded at the undefined locations",
+        "thresholds of a metric may mix the accepted numeric types (int for whole numbers, float / np.float64, integer and floating arrays for local "
+        "thresholds; dict keys in any order): threshold_types_case demands the documented quantity for the thresholds as written and frames bit for "
+        "bit equal to those of the twin metric with all thresholds written as floats (decided by the oracle on the real code; ThresholdMetric itself belongs to C19)",
         "rows of the returned frames are in the order debiaser (keyword order) x statistics x metrics; the positional oracle uses metric lists whose names collide (default names, same name, same object twice)",
     ]
 
@@ -1467,6 +1902,13 @@ def run(tier, res, force_search=False):
     for k in range((3 if tier == "quick" else 24) * (3 if (force_search or not lean_ok) else 1)):
         time_axes_case(C.seed() * 9973 + 20200 + k, res, problems)
     res.extra["time_axes_wall_s"] = round(_time.time() - t_ax, 2)
+    t_new = _time.time()
+    wide = 3 if (force_search or not lean_ok) else 1
+    for k in range((6 if tier == "quick" else 60) * wide):  # own PRNG streams: the case streams above do not shift
+        partial_grid_case(C.seed() * 9973 + 202000 + k, res, problems)
+    for k in range((3 if tier == "quick" else 20) * wide):
+        threshold_types_case(C.seed() * 9973 + 2020000 + k, res, problems)
+    res.extra["partial_grid_and_threshold_types_wall_s"] = round(_time.time() - t_new, 2)
     rl, rex = [], []
     for k in range(4 if tier == "quick" else 40):
         rmse_case(k, rng, rl, rex, res)
@@ -1552,6 +1994,15 @@ def replay(data):
         for p, _ in probs[:10]:
             print("REPRODUCED:", p)
         return 1 if probs else 0
+    for rel_, fn_, key_ in (("partially_undefined_grid", partial_grid_case, "pg_seed"), ("threshold_value_types", threshold_types_case, "tv_seed")):
+        if fi.get("relation") == rel_:
+            probs = []
+            logging.disable(logging.WARNING)
+            fn_(fi[key_], None, probs)
+            logging.disable(logging.NOTSET)
+            for p, _ in probs[:10]:
+                print("REPRODUCED:", p)
+            return 1 if probs else 0
     from ibicus.evaluate.metrics import ThresholdMetric
 
     d = fi["data"]
